@@ -26,6 +26,7 @@ type inputSpec struct {
 	explicitIDs []int // large families: one explicit value id list
 	explicitNil bool  // large families: value-less
 	rev         bool  // ask everything a second time on the same instance, in reverse order
+	sharedOnlyC bool  // shared-cell option forms only for the combinations with Complete=true (checks with a heavy oracle)
 	qsRev       []string
 }
 
@@ -93,6 +94,9 @@ func (u *inputSpec) cases(fn func(c *h.Case) bool) {
 				// the same option combinations with the fields sharing one cell per
 				// Boolean value (fresh instance only: the form only matters to the build)
 				for _, o := range u.opts {
+					if u.sharedOnlyC && o.C != 1 {
+						continue
+					}
 					c := &h.Case{Keys: u.sc.Keys, ValIDs: v.ids, Enc: enc, Opt: o, SharedCells: true}
 					if !fn(c) {
 						return
